@@ -84,6 +84,13 @@ NAME_ALPHABET = [b'a', b'_', b'__', b'X', b'X41', b'a b', b'a-b', b'a_$_b', b'f_
 def name_module(nm, position):
     """a valid module with the stress name in one position: export / import module / import field / name-section function name"""
     m = Module()
+    if position == 'debug-name':
+        # a NON-exported function carries the name (only those get a debug symbol under -g); the exported one calls it
+        m.import_func('env', 'f', '', '')
+        h = m.add_func('i', 'i', (), local_get(0) + i32_const(1) + op(0x6a))
+        m.add_func('i', 'i', (), local_get(0) + call(h), export='e')
+        m.names = {h: nm}
+        return m.encode()
     if position == 'import-global':
         m.imports.append((nm, nm, 3, (I32, 0)))
         m.add_func('', 'i', (), global_get(0), export='e')
@@ -228,7 +235,7 @@ def main(tier):
             jobs.append(('all valid fillings of context %s (batch of %d)' % (cname, len(b.cases)), b.wasm, [[]], w2c2))
     for n, d in hb[:2]:
         jobs.append((n, d, [['PREEXISTING'] + extra for extra in ([], ['-c'], ['-c', '-f', '1', '-t', '2'], ['-c', '-r', 'REF', '-f', '1'], ['-f', '1'])], w2c2))
-    positions = ('export', 'import-module', 'import-field', 'name-section', 'partial-name-section', 'import-global')
+    positions = ('export', 'import-module', 'import-field', 'name-section', 'partial-name-section', 'import-global', 'debug-name')
     for nm in NAME_ALPHABET:
         for pos in positions:
             jobs.append(('name %r in %s' % (nm[:12], pos), name_module(nm, pos), [[], ['-g'], ['-m', '-p'], ['-g', '-f', '1', '-t', '1']], w2c2))
